@@ -270,9 +270,10 @@ fn q_step_send(cap: usize, p: usize) {
         kani::cover!(ok && YIELDS_USED > 0, "accepted, consumer interleaved");
         kani::cover!(!ok && r == cap, "rejected on a full ring");
     }
-    // with nothing parked, a free slot and no interference the command must be accepted
-    if p == 0 && r < cap {
-        assert!(ok, "send rejected although the ring had room");
+    // no spurious omission: if the ring had room for everything parked plus this command when the
+    // call started (the consumer can only make more room), the command must be accepted
+    if r + p < cap {
+        assert!(ok, "send rejected although the ring had room (an omission not caused by a full queue)");
     }
 }
 
